@@ -25,6 +25,7 @@ class Ref:
         self.count = None
         self.run = None
         self.started = False
+        self.complete = False       # the reference reached its end (done) or its first failure
         self.startup_err = ""
         self.cmds = []
 
@@ -50,7 +51,17 @@ def reference(ctx, scn, ev, max_steps=None, observe=True):
         c = listing_count(r0)
         if c is None and r0.segs[1].probe:
             c = int(r0.segs[1].probe.get("count", "0"))
-        max_steps = (c or 0) + 2
+        if c is None:
+            # --quiet and no white-box probe: the length of the listing is not announced; use a bound
+            if scn.get("script") is not None:
+                from . import script as S
+                try:
+                    c = len(S.decode(bytes.fromhex(scn["script"]))) + 2
+                except ValueError:
+                    c = len(scn["script"]) // 2 + 2
+            else:
+                c = 400
+        max_steps = c + 2
     items = [["sync"]] + [["step"]] * max_steps
     w = session.build_world(scn, sched=items, observe=observe, faults=False)
     r = ctx.run(w)
@@ -80,4 +91,5 @@ def reference(ctx, scn, ev, max_steps=None, observe=True):
         else:
             ref.fail = (ref.L + 1, c.reply[1])
             break
+    ref.complete = ref.finished or ref.fail is not None
     return ref
